@@ -18,9 +18,24 @@ type c13Pair struct{ prev, next uint8 }
 // that registers and unsubscribes at chosen positions; its log must be: the state at subscription time, then
 // every later change exactly once, each callback's previous value equal to the preceding callback's new value.
 //
-//verif:h prop=C13 p.writes=3/4 cover=initial,chain,unsubscribed,nochange runs=5000000 timeout=250/2400
+//verif:h prop=C13 p.writes=3/4 cover=initial,chain,unsubscribed,nochange,transformed runs=5000000 timeout=250/2400
 func H_C13_variable_hist() {
-	v := NewVariable[uint8]()
+	// optionally a variable with a transformation function ("never decreases"): subscribers must only see
+	// changes of the stored (transformed) value
+	monotone := verifrt.Choose("transformation", 2) == 1
+	var v Variable[uint8]
+	if monotone {
+		v = NewVariable[uint8](func(cur, nv uint8) uint8 {
+			if nv > cur {
+				return nv
+			}
+
+			return cur
+		})
+		verifrt.Cover("transformed")
+	} else {
+		v = NewVariable[uint8]()
+	}
 	n := verifrt.Param("writes", 3)
 	subAt := verifrt.Choose("subscribeBefore", n+1)                  // registered before write #subAt
 	unsubAt := subAt + verifrt.Choose("unsubscribeAfter", n+2-subAt) // unsubscribed before write #unsubAt (n+1: never)
@@ -52,6 +67,9 @@ func H_C13_variable_hist() {
 			prev = v.Set(nv)
 		}
 		verifrt.Assert(prev == cur, "Set/Compute returned a previous value different from the last written one")
+		if monotone && nv < cur {
+			nv = cur // the transformation keeps the larger value
+		}
 		if nv != cur {
 			if unsub != nil {
 				want = append(want, c13Pair{cur, nv})
@@ -161,6 +179,8 @@ func H_C13_event() {
 	e.OnTrigger(func() { after++ })
 	verifrt.Assert(e.WasTriggered() == (first > 0), "WasTriggered differs from the history")
 	e.Trigger()
+	e.Set(false) // an Event never goes back, and writing to it again does not re-fire its subscribers
+	e.Set(true)
 	e.Trigger()
 	verifrt.Assert(before == 1 && after == 1, "an Event subscriber was not called exactly once")
 	verifrt.Cover("done")
